@@ -136,6 +136,31 @@ class C15(CacheProp):
                     fails.append("op %d: after Clear the frequency estimate of %s is %s (a fresh cache has 0)" % (st["n"], op[1], res[0] if res else "?"))
                 if op[0] == "metrics" and res[:1] != ["nil"] and any(int(x) != 0 for x in res[2:9]):
                     fails.append("op %d: after Clear the metrics are not reset: %s" % (st["n"], res))
+        # "accepts and serves new writes as a fresh one would", with the same Config: after a Clear an overwrite displaces the
+        # resident value (OnExit of the old value inside the Set call itself) only if Config.ShouldUpdate(new, old) says so
+        # (harness: mode 1 = new > old, mode 2 = never).  Independent of the model.
+        should_mode = case.args[4] if len(case.args) > 4 else "0"
+        if should_mode in ("1", "2") and not special:
+            cleared = False
+            for st in tr.steps:
+                op = st["op"]
+                if op[0] == "clear":
+                    cleared = True
+                if cleared and op[0] == "set" and len(op) > 3:
+                    # an ungated Set (explicit cost) is applied at once: evictions / rejections made on its behalf show up in
+                    # the same step, each as evict:/reject:key:conflict:value:cost followed by exit:value -- not overwrites
+                    by_policy = set()
+                    for cb in st["cbs"]:
+                        f = cb.split(":")
+                        if f[0] in ("evict", "reject") and len(f) >= 4:
+                            by_policy.add(f[3])
+                    for cb in st["cbs"]:
+                        if cb.startswith("exit:") and cb[5:].isdigit() and cb[5:] not in by_policy:
+                            old_v, new_v = int(cb[5:]), int(op[3])
+                            if old_v != new_v and (should_mode == "2" or new_v <= old_v):
+                                fails.append("op %d: after Clear, Set(%s,%s) with value %d displaced the resident value %d although "
+                                             "Config.ShouldUpdate(%d,%d) is false: not what a fresh cache with the same Config does"
+                                             % (st["n"], op[1], op[2], new_v, old_v, new_v, old_v))
         # "accepts and serves new writes as a fresh one would": the counters that restart at Clear obey the conservation
         # laws from then on
         first_clear = None
